@@ -39,7 +39,7 @@ POOLS = {
               "[1,2]", "[0,0,0]", "[1e38,1e38,1e38]", "[-1,-1]", "[2,-1]", "[5,1]", '["_a","_b"]', '["_a",[1]]', "[[],[]]", "[3e38]", "[(sqrt -1)]", "[1,[2,[3,[4]]]]", '["%1",1]', '["%5"]',
               '[V_LONG]', "[true,false]", "[1,nil,3]", '[[1,"a"],[2,"b"]]', "[[1,2,3],[1,2]]", '["a",1]', "[V_OBJ]", "[west]", '["B_Soldier_F",[0,0,0],[],0,"NONE"]', "[configFile]", "[1,2,3,4,5,6,7,8,9,10]",
               # the array the CODE pool's mutators shrink while an operator iterates it; long arrays of equal / mixed elements (sort); range and format edge cases
-              "V_SHR", "V_EQ20", "V_MIX20", "[1,1e10]", "[1,3e9]", "[2,2147483647]", "[1,(1e38*10)]", '["%99999999999",1]', '["%0 %-1 % %2",1]', "[V_SHR]", "[[3,1],[2,2]]"],
+              "V_SHR", "V_EQ20", "V_MIX20", "[1,1e10]", "[1,3e9]", "[2,2147483647]", "[1,(1e38*10)]", '["%99999999999",1]', '["%0 %-1 % %2",1]', "[V_SHR]", "[[3,1],[2,2]]", "[V_MAP,1]", "[[V_MAP],1]", '["k",[V_MAP]]'],
     "CODE": ["{}", "{nil}", "{5}", "{true}", "{false}", "{throw 1}", "{_x}", "{[]}", '{"a"}', "{_x > 1}", "{1 + \"a\"}", "{_this}", "{V_BIG resize 0}",
              "{V_SHR deleteAt 0; true}", "{V_SHR resize 0; false}", "{V_SHR deleteAt 0; _x}", "{V_SHR deleteAt 0; false}"],
     "OBJECT": ["objNull", "V_OBJ", "V_OBJ2"],
